@@ -953,11 +953,25 @@ impl Parser {
     fn parse_prefix_op(&mut self) -> Option<PrefixOp> {
         Some(match self.current_token().tag() {
             TokenTag::Minus => {
-                let next_tag = self.peek_token(1).tag();
+                let next = self.peek_token(1);
+                let next_tag = next.tag();
                 if next_tag != TokenTag::IntLit && next_tag != TokenTag::FloatLit {
                     PrefixOp::Minus
                 } else {
-                    return None;
+                    // `-<literal>` is a single negative literal, unless an operator that binds
+                    // tighter than unary minus follows: `-2 % 3` groups like `-x % 3`.
+                    // (The most negative integer has no positive counterpart and stays a literal.)
+                    let binds_tighter = matches!(
+                        self.peek_token(2).tag(),
+                        TokenTag::Star | TokenTag::Slash | TokenTag::Mod | TokenTag::Caret
+                    );
+                    let only_negative =
+                        matches!(&next.kind, TokenKind::IntLit(s) if s.parse::<i64>().is_err());
+                    if binds_tighter && !only_negative {
+                        PrefixOp::Minus
+                    } else {
+                        return None;
+                    }
                 }
             }
             TokenTag::Not => PrefixOp::Not,
